@@ -112,7 +112,7 @@ Definition udp_hdr_fn (a x : list val) (h : heap) : libres :=
   match a with
   | [src; dst; l; csum] =>
     do s <- conv_u16 src; do d <- conv_u16 dst; do ln <- conv_u16 l; do c <- conv_u16 csum;
-    do tl <- cadd two16 "udp.rs hdr: len + 8 overflow" ln 8;
+    let tl := wrap16 (ln + 8) in
     Ok (VStr (udp_ser {| uh_sport := s; uh_dport := d; uh_len := tl; uh_csum := c |}), h)
   | _ => bad_args
   end.
@@ -178,7 +178,7 @@ Definition ipv4_datagram_fn (a x : list val) (h : heap) : libres :=
     do s <- conv_ip4 src; do d <- conv_ip4 dst; do i <- conv_u16 id; do ev <- conv_bool evil;
     do dfb <- conv_bool df; do mfb <- conv_bool mf; do t <- conv_u8 ttl; do fo <- conv_u16 frag_off;
     do pr <- conv_u8 proto; do data <- join_extra [] x;
-    do tl <- cadd two16 "ipv4/mod.rs datagram: tot_len overflow" 20 (wrap16 (len data));
+    let tl := wrap16 (20 + wrap16 (len data)) in
     let iph := ip_calc_csum (ip_set_daddr (ip_set_saddr (ip_set_protocol (ip_set_ttl
                  (ip_set_frag_off (ip_set_mf (ip_set_df (ip_set_evil (ip_set_id (ip_set_tot_len ip_default tl) i) ev) dfb) mfb) fo) t) pr) s) d) in
     Ok (VPkt (pkt_of_body (eth_ser (eth_new (mac_of_ip s) (mac_of_ip d) ETH_IPV4) ++ ip_ser iph ++ data)), h)
